@@ -8,7 +8,7 @@ The line protocol of `harness/h_allocfail.c` around `Model/HeapAlloc.lean` (poin
 `Model/EvReg.lean` (event registration): one heap at most, one event layer, the allocator is the oracle `Mem` with
 the harness' failure schedule (`DsStep.sched`: `failat k`, `failfrom k`, `failoff`).  `stepOp` is everything
 `Driver/Af.lean` used to do besides parsing and printing.  The heap and the event layer are **the states of the
-proved models themselves** (`HeapAlloc.HeapA`, `EvReg.Ev`, `Mem`), moved only by `HeapAlloc.init / add / delete /
+proved models themselves** (`HeapAlloc.HeapA`, `EvReg.Ev`, `Mem`), moved only by `HeapAlloc.init / create / add / delete /
 free` and `EvReg.immReg / immCancel / tmReg / tmCancel / netReg / netCancel / run / shutdown`
 (`Properties/C14.lean`, `exec_*`); what `stepOp` adds is the harness' own bookkeeping: which ids it has put into
 the heap (`hlive`), which descriptor registrations it believes exist (`net`), the caller's keys, the clock, and
@@ -21,7 +21,7 @@ are simply kept.)
 namespace Percival.Model.AfStep
 open Percival.Model Percival.Model.EvReg Percival.Model.HeapAlloc
 open Percival.Model.DsStep (sched rf l2c L2c Word)
-open Percival.Spec.AfMon (Op Ans Head IdFld keyFn MAXID MAXFD)
+open Percival.Spec.AfMon (Op Ans Head IdFld keyFn MAXID MAXFD createSkip)
 
 structure S where
   m : Mem := { f := sched 0 0 0 }
@@ -107,7 +107,8 @@ def releaseAll (s : S) : S :=
 
 def boolRes (ok : Bool) : NetRes := if ok then .ok else .fail
 
-/-- the allocator when `h_init` calls `ptrheap_init`: the harness frees a heap it still has first -/
+/-- the allocator when `h_init` / `h_create` call `ptrheap_init` / `ptrheap_create`: the harness frees a heap it still
+has first -/
 def initMem (s : S) : Mem := match s.h with | some ha => HeapAlloc.free ha s.m | none => s.m
 
 def stepOp (s : S) : Op → S × Out
@@ -154,6 +155,16 @@ def stepOp (s : S) : Op → S × Out
     | some ha =>
       let m' := HeapAlloc.free ha s.m
       ({ s with m := m', h := none, hlive := [] }, .heap true 0 none (hView none s.m m'))
+  | .hCreate els =>
+    if createSkip els then (s, .word .skip) else
+    let m0 := initMem s
+    let keys := els ++ s.keys
+    match HeapAlloc.create (keyFn keys) (els.map (·.1)) m0 with
+    | (some ha, m') =>
+      ({ s with m := m', h := some ha, keys := keys, hlive := els.map (·.1) },
+       .heap true (rf m0 m') none (hView (some ha) m0 m'))
+    | (none, m') =>
+      ({ s with m := m', h := none, keys := keys, hlive := [] }, .heap false (rf m0 m') none (hView none m0 m'))
   -- ---------------------------------------------------------------- events
   | .regImm i prio =>
     if i ≥ MAXID || registeredImm s.ev i || registeredTm s.ev i then (s, .word .skip) else
